@@ -8,6 +8,12 @@ Require Import PV.Gen.Codes PV.Gen.ApplyGen PV.Proofs.LinesFixer.
 Lemma gen_indentation : forall l, ApplyGen.get_indentation l = indentation l.
 Proof. intros l. unfold ApplyGen.get_indentation, indentation. destruct (lstrip l); reflexivity. Qed.
 
+Lemma prefix_hash' : forall l, prefix [35%N] l = starts_hash l.
+Proof. intros [|c l]; cbn; [reflexivity|]. unfold hash_char. now rewrite andb_true_r, N.eqb_sym. Qed.
+
+Lemma forallb_ext' : forall {A} (p q : A -> bool) l, (forall x, p x = q x) -> forallb p l = forallb q l.
+Proof. intros A p q l H. induction l as [|x r IH]; cbn; [reflexivity|]. now rewrite H, IH. Qed.
+
 Theorem fixer_gen_is_model :
   (forall changes f, ApplyGen.apply_changes changes f = Fixer.apply_changes changes f) /\
   (forall f ln c, 1 <= ln ->
@@ -15,8 +21,17 @@ Theorem fixer_gen_is_model :
   ApplyGen.iteration_limit = 150.
 Proof.
   split; [reflexivity|]. split; [|reflexivity].
-  intros f ln c H. unfold ApplyGen.add_ignore_repl, Fixer.add_ignore_repl, comment_line.
+  intros f ln c H. unfold ApplyGen.add_ignore_repl, Fixer.add_ignore_repl, use_trailing, trail_line, comment_line, own_any.
   unfold py_index. destruct (Z.of_nat ln - 1 <? 0)%Z eqn:E; [lia|].
   replace (Z.to_nat (Z.of_nat ln - 1)) with (ln - 1) by lia.
-  unfold line_at. now rewrite gen_indentation.
+  fold (line_at f (ln - 1)). rewrite gen_indentation.
+  assert (P : (if 2 <=? ln
+               then if (Z.of_nat ln - 2 <? 0)%Z then nth (length f - Z.to_nat (- (Z.of_nat ln - 2))) f []
+                    else nth (Z.to_nat (Z.of_nat ln - 2)) f []
+               else []) = (if 2 <=? ln then line_at f (ln - 2) else [])).
+  { destruct (2 <=? ln) eqn:L2; [|reflexivity]. apply Nat.leb_le in L2.
+    destruct (Z.of_nat ln - 2 <? 0)%Z eqn:E2; [lia|]. unfold line_at. f_equal. lia. }
+  rewrite P.
+  rewrite (forallb_ext' _ starts_hash _ prefix_hash').
+  reflexivity.
 Qed.
